@@ -18,3 +18,17 @@ Definition gen_network (build : nat -> list nat -> res shape) (sizes names : lis
   | Err e => Err e
   | Ok (cs, c) => Ok (cs, Conv.to_network (el_of_cols jds c))
   end.
+
+(* wire entry point: input as Gen.gen_run ([tag; jds; sizes; builder codes; names; motif_indices; pis];
+   tag and motif_indices are ignored: this IS the network variant);
+   output: the error, or [callback calls; annotated network (Conv.enc_net)] *)
+Definition c01_net_run (t : tree) : tree :=
+  let jds := t_natss (t_nth 1 t) in
+  let sizes := t_nats (t_nth 2 t) in
+  let codes := t_nats (t_nth 3 t) in
+  let names := t_natss (t_nth 4 t) in
+  let pis := t_natss (t_nth 6 t) in
+  match gen_network (build_of_codes codes) sizes (map (hd 0) names) jds pis with
+  | Err e => t_err e
+  | Ok (cs, g) => L [L (map (fun c => enc_call (flat_call c)) cs); Conv.enc_net g]
+  end.
